@@ -18,7 +18,12 @@ pub fn run_source(case: &mut Case, prop: &str, label: &str, src: &str, budget: u
             return None;
         }
         Err(p) => {
-            case.inconclusive(format!("compiler panic at {} (a C04 event)", p.site));
+            // the callers' programs are valid by construction: a crash is a violation of their property too
+            case.violation(
+                format!("{}:compiler-crash-on-valid-program:{}", prop, crate::diff::msg_class(&p.site)),
+                format!("a program that is valid by construction makes the compiler crash at {}: {}", p.site, util::truncate(&p.message, 160)),
+                json!({"label": label, "source": util::truncate(src, 8000)}),
+            );
             return None;
         }
     };
